@@ -1,6 +1,9 @@
 #include "exec.h"
 #include <deque>
 #include <set>
+#include <thread>
+#include <mutex>
+#include <condition_variable>
 
 #include "htp/htp_private.h"
 
@@ -72,7 +75,6 @@ struct Exec {
     int hook_count[HK_COUNT];
     Fnv log;       // event log hash
     Fnv beh;       // behaviour signature
-    CallRec *cur_call = nullptr;
     long disposal = 0;
     size_t cfg_snapshot_hash = 0;
     int cap_body = 1 << 22;
@@ -80,6 +82,7 @@ struct Exec {
 
 std::set<std::string> g_known_sites;
 static thread_local Exec *g_ex = nullptr;
+static thread_local CallRec *g_cur_call = nullptr;   // the API call in progress on this thread
 static thread_local ConnState *g_cur_conn = nullptr;
 
 static void violate(Exec *ex, const char *prop, const std::string &oracle, const std::string &detail) {
@@ -224,7 +227,7 @@ static TxRec &rec_for(Exec *ex, htp_tx_t *tx) {
     r.tx_ptr = tx;
     ConnState *cs = tx->connp ? (ConnState *) htp_connp_get_user_data(tx->connp) : g_cur_conn;
     r.conn = cs ? cs->idx : 0;
-    if (cs) { const ConnRes &cr = ex->res->conns[cs->idx]; for (int d = 0; d < 2; d++) r.offered_at_start[d] = ex->cur_call ? std::min(cr.offered_before_call[d], cr.offered[d]) : cr.offered[d]; }
+    if (cs) { const ConnRes &cr = ex->res->conns[cs->idx]; for (int d = 0; d < 2; d++) r.offered_at_start[d] = g_cur_call ? std::min(cr.offered_before_call[d], cr.offered[d]) : cr.offered[d]; }
     ex->res->txs.push_back(r);
     tx->user_data = (void *) (intptr_t) (r.ordinal + 1);
     if (cs) ex->res->conns[cs->idx].txs.push_back(r.ordinal);
@@ -306,7 +309,7 @@ static int apply_action(Exec *ex, int hook, int action, htp_tx_t *tx, TxRec *r) 
 // the lifecycle monitor (C05) + common bookkeeping; returns the TxRec
 static TxRec *on_event(Exec *ex, int hook, htp_tx_t *tx, bool eob_marker = false) {
     ex->res->st.cbs++;
-    if (ex->cur_call) ex->cur_call->cbs++;
+    if (g_cur_call) g_cur_call->cbs++;
     if (!tx) { ex->log.byte((unsigned char) hook); ex->log.byte(0xfe); return nullptr; }
     TxRec &r = rec_for(ex, tx);
     const HookMeta &m = HOOKS[hook];
@@ -361,6 +364,33 @@ static TxRec *on_event(Exec *ex, int hook, htp_tx_t *tx, bool eob_marker = false
 }
 
 // ------------------------------------------------------------------------------------------------
+// memory-ownership oracle (C19): libhtp built with -fsanitize-coverage=trace-loads,trace-stores calls this
+// for every load and store it makes. A store into the shared region (configuration, hook lists, writable
+// statics) while parsing, or any access to a block allocated by another task, is a violation - found on the
+// first execution of the offending instruction, whatever the schedule.
+
+static thread_local int g_no_preempt = 0;     // > 0 while harness code runs inside a callback
+static thread_local bool g_in_data_call = false;
+static uint64_t g_access_checks = 0;
+
+static void ownership_access(const void *addr, unsigned size, int is_store) {
+    Exec *ex = g_ex;
+    if (!ex || !g_seams.track || !g_in_data_call || g_no_preempt) return;
+    g_access_checks++;
+    int me = g_seams.owner;
+    int o = seams_block_owner(addr);
+    if (o < 0) {
+        if (is_store) for (auto &w : g_watched_statics) if ((uintptr_t) addr >= w.addr && (uintptr_t) addr < w.addr + w.size) {
+            violate(ex, "C19", "C19.store_into_static." + w.name, strfmt("%u-byte store at offset %zu of %s by task %d", size, (size_t) ((uintptr_t) addr - w.addr), w.name.c_str(), me));
+            return;
+        }
+        return;
+    }
+    if (o == 0) { if (is_store) violate(ex, "C19", "C19.store_into_shared_config", strfmt("%u-byte store into a block of the shared configuration by task %d (%s)", size, me, seams_current_phase())); return; }
+    if (o != me) violate(ex, "C19", is_store ? "C19.store_into_other_tasks_memory" : "C19.load_from_other_tasks_memory", strfmt("task %d touched a block allocated by task %d (%s)", me, o, seams_current_phase()));
+}
+
+// ------------------------------------------------------------------------------------------------
 // guarded trace probes in libhtp (-DOISF_LIBHTP_VERIF): reach counters + call-site attribution
 
 extern "C" void htp_verif_probe(const char *site, htp_connp_t *connp, long a, long b) {
@@ -381,7 +411,7 @@ extern "C" void htp_verif_probe(const char *site, htp_connp_t *connp, long a, lo
 // ------------------------------------------------------------------------------------------------
 // callbacks registered with libhtp
 
-struct TickFreeze { uint64_t t0; TickFreeze() : t0(g_seams.ticks) {} ~TickFreeze() { g_seams.ticks = t0; } };   // work done on behalf of the harness is not libhtp's
+struct TickFreeze { uint64_t t0; TickFreeze() : t0(g_seams.ticks) { g_no_preempt++; } ~TickFreeze() { g_seams.ticks = t0; g_no_preempt--; } };   // work done on behalf of the harness is not libhtp's
 
 static int tx_cb(int hook, htp_tx_t *tx) {
     TickFreeze tf;
@@ -464,7 +494,7 @@ static int file_cb(htp_file_data_t *d) {
     TickFreeze tf;
     Exec *ex = g_ex;
     ex->res->st.cbs++;
-    if (ex->cur_call) ex->cur_call->cbs++;
+    if (g_cur_call) g_cur_call->cbs++;
     ex->log.byte(HK_REQUEST_FILE_DATA);
     ex->beh.byte(0x80 | HK_REQUEST_FILE_DATA);
     if (d) {
@@ -651,15 +681,17 @@ static int do_call(Exec *ex, ConnState &c, int dir, const Chunk &ch, long &consu
     struct timeval tv; tv.tv_sec = (time_t) (g_seams.now_us / 1000000); tv.tv_usec = (suseconds_t) (g_seams.now_us % 1000000);
     g_seams.now_us += 1000;
     uint64_t t0 = g_seams.ticks, a0 = g_seams.n_total;
-    ex->cur_call = &cr;
+    g_cur_call = &cr;
     g_cur_conn = &c;
     int rc;
     {
+        g_seams.owner = c.idx + 1; g_in_data_call = true;
         ApiGuard g(dir == 0 ? "htp_connp_req_data" : "htp_connp_res_data");
         if (dir == 0) { rc = htp_connp_req_data(cp, &tv, buf, (size_t) len); consumed = (long) htp_connp_req_data_consumed(cp); }
         else { rc = htp_connp_res_data(cp, &tv, buf, (size_t) len); consumed = (long) htp_connp_res_data_consumed(cp); }
     }
-    ex->cur_call = nullptr;
+    g_in_data_call = false;
+    g_cur_call = nullptr;
     if (buf) free(buf);   // the caller's chunk does not outlive the call: a later access is a use-after-free
     cr.rc = rc; cr.consumed = consumed; cr.ticks = g_seams.ticks - t0; cr.allocs = g_seams.n_total - a0;
     cr.conn_flags_after = cp->conn ? (unsigned) cp->conn->flags : 0; cr.ntx_after = cp->conn && cp->conn->transactions ? (int) htp_list_size(cp->conn->transactions) : -1; cr.next_tx_after = (int) cp->out_next_tx_index;
@@ -738,6 +770,7 @@ static void dispose_completed(Exec *ex, ConnState &c, bool freed) {
         if (htp_tx_is_complete(t) != 1) continue;
         TxRec &r = rec_for(ex, t);
         if (!r.have_dump) take_dump(ex, t, r, false);
+        g_seams.owner = c.idx + 1;
         ApiGuard g("htp_tx_destroy");
         if (htp_tx_destroy(t) == HTP_OK) { r.alive = false; r.tx_ptr = nullptr; ex->res->st.disposals++; }
     }
@@ -768,6 +801,7 @@ static void destroy_conn(Exec *ex, ConnState &c, bool abort_) {
     final_dumps(ex, c);
     for (int o : R.conns[c.idx].txs) { R.txs[o].alive = false; R.txs[o].tx_ptr = nullptr; }
     g_cur_conn = &c;
+    g_seams.owner = c.idx + 1;
     { ApiGuard g("htp_connp_destroy_all"); htp_connp_destroy_all(c.connp); }
     c.connp = nullptr; c.alive = false;
     R.conns[c.idx].destroyed = true;
@@ -794,6 +828,7 @@ static uint64_t cfg_hash(htp_cfg_t *cfg) {
 void exec_op(Exec *ex, const Op &op);
 
 static bool open_conn(Exec *ex, ConnState &c) {
+    g_seams.owner = c.idx + 1;
     { ApiGuard g("htp_connp_create"); c.connp = htp_connp_create(ex->cfg); }
     if (!c.connp) return false;
     htp_connp_set_user_data(c.connp, &c);
@@ -804,7 +839,7 @@ static bool open_conn(Exec *ex, ConnState &c) {
 static void api_open(Exec *ex, ConnState &c) {
     (void) ex;
     struct timeval tv; tv.tv_sec = (time_t) (g_seams.now_us / 1000000); tv.tv_usec = 0;
-    g_cur_conn = &c;
+    g_cur_conn = &c; g_seams.owner = c.idx + 1;
     ApiGuard g("htp_connp_open");
     htp_connp_open(c.connp, "192.168.2.3", 32768 + c.idx, "192.168.2.2", 80, &tv);
     c.opened = true;
@@ -849,9 +884,11 @@ void exec_op(Exec *ex, const Op &op) {
             struct timeval tv; tv.tv_sec = (time_t) (g_seams.now_us / 1000000); tv.tv_usec = 0;
             R.st.closes++; R.st.state_at_close[0][state_id_in(c.connp)]++;
             g_cur_conn = &c;
-            CallRec cr; memset(&cr, 0, sizeof cr); ex->cur_call = &cr;
+            CallRec cr; memset(&cr, 0, sizeof cr); g_cur_call = &cr;
+            g_seams.owner = c.idx + 1; g_in_data_call = true;
             { ApiGuard g("htp_connp_req_close"); htp_connp_req_close(c.connp, &tv); }
-            ex->cur_call = nullptr;
+            g_in_data_call = false;
+            g_cur_call = nullptr;
             c.req_closed = true;
             ex->log.byte('c');
             break;
@@ -861,9 +898,11 @@ void exec_op(Exec *ex, const Op &op) {
             R.st.closes++; R.st.state_at_close[0][state_id_in(c.connp)]++; R.st.state_at_close[1][state_id_out(c.connp)]++;
             if (R.conns[c.idx].pre_close_status[0] < 0) { R.conns[c.idx].pre_close_status[0] = c.connp->in_status; R.conns[c.idx].pre_close_status[1] = c.connp->out_status; }
             g_cur_conn = &c;
-            CallRec cr; memset(&cr, 0, sizeof cr); ex->cur_call = &cr;
+            CallRec cr; memset(&cr, 0, sizeof cr); g_cur_call = &cr;
+            g_seams.owner = c.idx + 1; g_in_data_call = true;
             { ApiGuard g("htp_connp_close"); htp_connp_close(c.connp, &tv); }
-            ex->cur_call = nullptr;
+            g_in_data_call = false;
+            g_cur_call = nullptr;
             c.closed = true;
             ex->log.byte('C');
             break;
@@ -886,6 +925,93 @@ static void finish_conn(Exec *ex, ConnState &c) {
     }
 }
 
+// ------------------------------------------------------------------------------------------------
+// baton scheduler (C19): real threads, exactly one runnable; pre-emption at libhtp basic blocks, decided by a PRNG
+// whose seed is in the plan. Same plan => same switch points (recorded as a schedule hash).
+
+struct SeamCtx { bool track; int owner; const char *phase; uint64_t call_start; int64_t now_us; uint64_t n_in_op; };
+
+struct Baton {
+    std::mutex m; std::condition_variable cv;
+    int turn = -1;                 // task id that may run; -1 = main
+    std::vector<bool> done;
+    std::vector<SeamCtx> ctx;
+    Rng rng; long mean = 50; long countdown = 50;
+    uint64_t switches = 0; Fnv hash;
+    bool active = false;
+    int pick_next(int me) {
+        std::vector<int> live; for (size_t i = 0; i < done.size(); i++) if (!done[i]) live.push_back((int) i);
+        if (live.empty()) return -1;
+        (void) me; return live[rng.below(live.size())];
+    }
+};
+static Baton *g_baton = nullptr;
+static thread_local int g_task_id = -1;
+
+static void baton_save(SeamCtx &c) { c.track = g_seams.track; c.owner = g_seams.owner; c.phase = seams_current_phase(); c.call_start = g_seams.call_start_ticks; c.now_us = g_seams.now_us; c.n_in_op = g_seams.n_in_op; }
+static void baton_restore(const SeamCtx &c) { g_seams.track = c.track; g_seams.owner = c.owner; seams_set_phase(c.phase); g_seams.call_start_ticks = c.call_start; g_seams.now_us = c.now_us; g_seams.n_in_op = c.n_in_op; }
+
+// hand the baton to `next` and wait until it comes back (unless we are finished)
+static void baton_switch(Baton *b, int me, int next, bool finished) {
+    std::unique_lock<std::mutex> lk(b->m);
+    if (me >= 0) baton_save(b->ctx[(size_t) me]);
+    b->switches++; b->hash.u64((uint64_t) (next + 1)); b->hash.u64(g_seams.ticks);
+    b->turn = next;
+    b->cv.notify_all();
+    if (finished) return;
+    b->cv.wait(lk, [&] { return b->turn == me; });
+    if (me >= 0) { uint64_t elapsed_in_call = 0; (void) elapsed_in_call; baton_restore(b->ctx[(size_t) me]); }
+}
+
+static void baton_preempt() {
+    Baton *b = g_baton;
+    if (!b || !b->active || g_task_id < 0 || g_no_preempt) return;
+    if (--b->countdown > 0) return;
+    b->countdown = (long) b->rng.geom((size_t) b->mean);
+    int next = b->pick_next(g_task_id);
+    if (next == g_task_id || next < 0) return;
+    // the virtual-CPU budget is per call and per task: time spent parked does not count
+    uint64_t used = g_seams.ticks - g_seams.call_start_ticks;
+    baton_switch(b, g_task_id, next, false);
+    g_seams.call_start_ticks = g_seams.ticks - used;
+}
+
+static void run_threaded(Exec &ex, const Plan &p) {
+    size_t n = ex.conns.size();
+    Baton b; b.done.assign(n, false); b.ctx.resize(n); b.rng.reseed((uint64_t) p.sched_seed * 0x9e3779b97f4a7c15ULL + 17); b.mean = std::max(1L, p.sched_mean); b.countdown = (long) b.rng.geom((size_t) b.mean);
+    for (size_t i = 0; i < n; i++) { SeamCtx c; baton_save(c); c.track = false; c.owner = (int) i + 1; c.phase = "harness"; b.ctx[i] = c; }
+    g_baton = &b;
+    std::vector<std::vector<Op>> per((size_t) n);
+    for (auto &op : p.ops) if (op.conn >= 0 && (size_t) op.conn < n) per[(size_t) op.conn].push_back(op);
+    std::vector<std::thread> th;
+    Exec *exp = &ex;
+    for (size_t i = 0; i < n; i++) {
+        th.emplace_back([&, i, exp]() {
+            g_ex = exp; g_task_id = (int) i;
+            { std::unique_lock<std::mutex> lk(b.m); b.cv.wait(lk, [&] { return b.turn == (int) i; }); baton_restore(b.ctx[i]); }
+            for (auto &op : per[i]) exec_op(exp, op);
+            finish_conn(exp, exp->conns[i]);
+            if (p.cfg.get("autoclose", 1) && exp->conns[i].alive && !exp->conns[i].closed) { Op op; op.kind = 'C'; op.conn = (int) i; exec_op(exp, op); }
+            int next;
+            { std::unique_lock<std::mutex> lk(b.m); b.done[i] = true; next = b.pick_next((int) i); }
+            baton_switch(&b, (int) i, next, true);
+        });
+    }
+    b.active = true;
+    g_preempt_hook = baton_preempt;
+    int first; { std::unique_lock<std::mutex> lk(b.m); first = b.pick_next(-1); }
+    {
+        std::unique_lock<std::mutex> lk(b.m);
+        b.turn = first; b.cv.notify_all();
+        b.cv.wait(lk, [&] { return b.turn == -1; });
+    }
+    g_preempt_hook = nullptr; b.active = false;
+    for (auto &t : th) t.join();
+    ex.res->sched_switches = b.switches; ex.res->sched_hash = b.hash.h;
+    g_baton = nullptr;
+    g_seams.track = false; g_seams.owner = 0; seams_set_phase("harness");
+}
+
 void execute_plan(const Plan &p, RunResult &R) {
     Exec ex; ex.plan = &p; ex.res = &R;
     memset(ex.hook_count, 0, sizeof ex.hook_count);
@@ -906,6 +1032,10 @@ void execute_plan(const Plan &p, RunResult &R) {
     R.conns.resize(p.conns.size());
     ex.conns.resize(p.conns.size());
 
+    g_seams.owner = 0;
+#ifdef SIM_OWNERSHIP
+    g_access_hook = ownership_access;
+#endif
     { ApiGuard g("htp_config_create"); ex.cfg = build_cfg(p); }
     if (!ex.cfg) {
         // only legitimate under allocation failure
@@ -921,13 +1051,17 @@ void execute_plan(const Plan &p, RunResult &R) {
             if (!explicit_open) api_open(&ex, ex.conns[i]);
         }
         uint64_t h0 = cfg_hash(ex.cfg);
-        for (auto &op : p.ops) exec_op(&ex, op);
-        for (auto &c : ex.conns) finish_conn(&ex, c);
-        if (p.cfg.get("autoclose", 1)) {
-            for (auto &c : ex.conns) if (c.alive && !c.closed) { Op op; op.kind = 'C'; op.conn = c.idx; exec_op(&ex, op); }
+        if (p.threads > 0 && ex.conns.size() > 1) run_threaded(ex, p);
+        else {
+            for (auto &op : p.ops) exec_op(&ex, op);
+            for (auto &c : ex.conns) finish_conn(&ex, c);
+            if (p.cfg.get("autoclose", 1)) {
+                for (auto &c : ex.conns) if (c.alive && !c.closed) { Op op; op.kind = 'C'; op.conn = c.idx; exec_op(&ex, op); }
+            }
         }
         if (cfg_hash(ex.cfg) != h0) { R.cfg_changed = true; violate(&ex, "C19", "C19.shared_cfg_written", "configuration bytes or hook lists changed while parsing"); }
         for (auto &c : ex.conns) destroy_conn(&ex, c, false);
+        g_seams.owner = 0;
         { ApiGuard g("htp_config_destroy"); htp_config_destroy(ex.cfg); }
         ex.cfg = nullptr;
     }
@@ -941,7 +1075,7 @@ void execute_plan(const Plan &p, RunResult &R) {
     for (auto &h : g_seams.ubsan)
         violate(&ex, p.alloc_fail_at ? "C18" : "C01", strfmt("%s.ubsan.%s@%s", p.alloc_fail_at ? "C18" : "C01", h.kind.c_str(), h.file.c_str()), strfmt("%s:%u", h.file.c_str(), h.line));
     if (g_seams.bad_free && !R.viol.size()) violate(&ex, "C01", "C01.bad_free", strfmt("%llu frees of unknown pointers", (unsigned long long) g_seams.bad_free));
-    R.hash = ex.log.h; R.behaviour_sig = ex.beh.h;
+    R.hash = ex.log.h; R.behaviour_sig = ex.beh.h; R.access_checks = g_access_checks; g_access_checks = 0;
     R.total_allocs = g_seams.n_total; R.alloc_failed = g_seams.failed; R.fail_site = g_seams.first_fail_site;
     R.peak_bytes = g_seams.peak_bytes; R.ticks = g_seams.ticks; R.ubsan_benign = g_seams.ubsan_benign;
     R.clock_reads = g_seams.clock_reads; R.clock_faults = g_seams.clock_faults; R.fs_faults = g_seams.fs_faults;
